@@ -36,11 +36,15 @@ vars == <<case>>
 \* ---------------------------------------------------------------- syntax
 LineGone(c)   == c.shape \in {"leading-blank-line", "second-line-valid", "only-newline", "empty-file", "binary-junk"}
 FieldsGone(c) == c.shape \in {"missing-digest", "missing-two", "extra-field"}
-AlgoOK(c)     == c.algo = "match"
+\* the format id names the algorithm of the parameter set the line refers to: either the set the digest was
+\* computed with, or - consistently - the other configured set (then the line is a well-formed record of that
+\* set, whose digest cannot match)
+AlgoOK(c)     == c.algo = "match" \/ (c.algo = "other-known" /\ c.param = "known-other-algo")
+OwnSet(c)     == c.algo = "match"
 TimeStrict(c) == c.time \in {"dec", "zero"} /\ c.shape # "huge-time"
 TimeLenient(c) == c.time \in {"dec", "zero", "neg", "plus"} /\ c.shape # "huge-time"
-ParamStrict(c) == c.param = "known"
-ParamLenient(c) == c.param \in {"known", "leadzero"}
+ParamStrict(c) == c.param = "known" \/ (c.algo = "other-known" /\ c.param = "known-other-algo")
+ParamLenient(c) == c.param \in {"known", "leadzero"} \/ (c.algo = "other-known" /\ c.param = "known-other-algo")
 B64Strict(x)  == x \in {"orig", "other", "truncated", "match", "other-pw", "extended", "zeros", "swapped-with-salt"}
 \* spellings a lenient base64 reader may or may not accept; their *bytes* are the original ones
 B64Lenient(x) == B64Strict(x) \/ x \in {"nopad", "std-alphabet"}
@@ -48,7 +52,8 @@ ShapeStrict(c) == c.shape \in {"exact", "huge-aux"}
 ShapeLenient(c) == ShapeStrict(c) \/ c.shape \in {"no-newline", "crlf", "nul-before-newline"}
 
 \* the stored digest equals H(set, submitted password, stored salt)
-DigestMatches(c) == /\ c.digest \in {"match", "nopad", "std-alphabet"}
+DigestMatches(c) == /\ OwnSet(c) /\ c.param \in {"known", "leadzero"}
+                    /\ c.digest \in {"match", "nopad", "std-alphabet"}
                     /\ c.salt \in {"orig", "nopad", "std-alphabet"}
 
 Canonical(c) == /\ ~LineGone(c) /\ ~FieldsGone(c) /\ ShapeStrict(c) /\ AlgoOK(c) /\ TimeStrict(c) /\ ParamStrict(c)
@@ -78,7 +83,7 @@ Spec == Init /\ [][Next]_vars
 NeverAuthWithoutMatchingDigest == AuthRight(case) # "mustnot" => DigestMatches(case)
 AuthImpliesSupported == /\ AuthRight(case) = "must" => Supported(case) = "must"
                         /\ Supported(case) = "mustnot" => AuthRight(case) = "mustnot"
-MalformedNeverAuth == (LineGone(case) \/ FieldsGone(case) \/ ~AlgoOK(case) \/ ~TimeLenient(case) \/ ~ParamLenient(case))
+MalformedNeverAuth == (LineGone(case) \/ FieldsGone(case) \/ ~OwnSet(case) \/ ~TimeLenient(case) \/ ~ParamLenient(case))
                           => AuthRight(case) = "mustnot"
 GoodIsMust == case = Good => (AuthRight(case) = "must" /\ Supported(case) = "must")
 =============================================================================
